@@ -368,6 +368,10 @@ func plan(g group, thorough bool) []nrun {
 		for _, n := range []int{0, 1, 2, 3, 10} {
 			out = append(out, nrun{N: n, Cfgs: allConfigs})
 		}
+		if g.Turn == "every" && !thorough {
+			// a side call on every turn: the constant-stack relation needs a second, longer loop
+			out = append(out, nrun{N: 40, Cfgs: onOff, Stack: true})
+		}
 		if thorough {
 			if len(g.Shape) <= 1 {
 				out = append(out, nrun{N: 100, Cfgs: allConfigs})
@@ -554,7 +558,9 @@ func runsFor(c Case) []nrun {
 				out = append(out, nrun{N: n, Cfgs: allConfigs, Stack: true})
 				continue
 			}
-			out = append(out, nrun{N: n, Cfgs: configsOf(c)})
+			// (Stack: the iteration counts of a finding are the ones that were compared, whether or not they are
+			// among the standard counts)
+			out = append(out, nrun{N: n, Cfgs: configsOf(c), Stack: true})
 		}
 		return out
 	}
